@@ -209,7 +209,7 @@ func c06Corpus(args common.Args, out *common.Out) error {
 	var names []string
 	names = append(names, circuits.ShapeNames()...)
 	for _, ci := range circuits.CorpusList {
-		if ci.Name == "wide2" {
+		if ci.Name == "wide2" || ci.Gkr {
 			continue
 		}
 		names = append(names, ci.Name)
